@@ -874,3 +874,88 @@ def unchecked_path_prefixes(repo, run, rule):
         run.violation(rule, tr.where(fi, e), norm(e.node)[:80], 'the path prefix is type-checked (%d site(s)): a tree with a float / bool key cannot be walked or evaluated although the loader accepts such keys' % len(bad))
     else:
         run.ok(rule, repo.func('EvalContext.evaluate_node'), '%d prefix normalisations use check_types=False' % n)
+
+
+def function_node_init(repo, run, rule):
+    """FunctionNode(func, args) evaluated: the target is stored; arguments are normalised to a mapping (None stays None, a
+    mapping is itself, a list / tuple is keyed by position, anything else is the single positional argument); a (func, args)
+    pair may not be combined with separate args; an empty target is rejected; delete defaults to True"""
+    fi = repo.func('FunctionNode.__init__')
+    bad = []
+    cases = [('f', None, 'f', None, None), ('f', {'a': 1}, 'f', {'a': 1}, None), ('f', [7, 8], 'f', {0: 7, 1: 8}, None), ('f', (7,), 'f', {0: 7}, None), ('f', 5, 'f', {0: 5}, None),
+             ('f', 'x', 'f', {0: 'x'}, None), (('g', {'k': 2}), None, 'g', {'k': 2}, None), (('g', [1]), None, 'g', {0: 1}, None), (('g', {'k': 2}), {'z': 1}, None, None, 'ValueError'),
+             ('', None, None, None, 'ValueError'), (None, None, None, None, 'ValueError')]
+    for func, args, want_f, want_a, want_exc in cases:
+        got = []
+        ev = _fde(repo, stubs={'__init__'}, stub=lambda name, recv, a, k: got.append((list(a), dict(k))))
+        me = Obj('fn', 'FunctionNode')
+        try:
+            r = ev.call(fi, me, func, args)
+        except Unsupported as e:
+            raise AnalysisError('FunctionNode.__init__: finite-domain evaluator refused: %s' % e)
+        what = 'FunctionNode(%r, %r)' % (func, args)
+        if want_exc:
+            if r.raised != want_exc:
+                bad.append('%s: %s, expected %s' % (what, r.raised or 'accepted', want_exc))
+            continue
+        if r.raised or len(got) != 1:
+            bad.append('%s: %s' % (what, 'raises %s' % r.raised if r.raised else 'base constructor called %d times' % len(got)))
+            continue
+        if me.f.get('_func') != want_f:
+            bad.append('%s: target stored as %r' % (what, me.f.get('_func')))
+        a0 = got[0][0][0] if got[0][0] else got[0][1].get('value', '<none>')
+        if a0 != want_a:
+            bad.append('%s: arguments become %r, expected %r' % (what, a0, want_a))
+        if got[0][1].get('delete') is not True:
+            bad.append('%s: delete defaults to %r, expected True (function nodes replace by default)' % (what, got[0][1].get('delete')))
+    if bad:
+        run.violation(rule, fi, 'FunctionNode.__init__', '; '.join(bad[:3]))
+    else:
+        run.ok(rule, fi, 'FunctionNode.__init__ evaluated on %d argument shapes' % len(cases), 'target stored, arguments normalised to a mapping, ambiguous / empty input rejected, delete=True by default')
+
+
+def eval_pipeline(repo, run, rule):
+    """EvalNode.on_evaluate_impl on traces: all lines but the last are compiled in exec mode and executed, the last one is
+    compiled in eval mode and evaluated - both (patched) in the same namespace, exec first; what eval returns is the value
+    (handed to the context when it is a node); a namespace that is published is published with its content"""
+    fi = repo.func('EvalNode.ayns.on_evaluate_impl')
+    paths = [p for p in tr.paths_of(repo, fi, no_inline={'_require_safe', '_patch_access_to_globals', 'evaluate_node', 'get_eval_symbols'}, follow_exceptions=False) if p.status == 'return']
+    if not paths:
+        raise AnalysisError('EvalNode.on_evaluate_impl: no returning path')
+    probs = set()
+    for p in paths:
+        comp = {e.args[2].const: e for e in p.events if e.kind == 'call' and e.callee == 'compile' and len(e.args) >= 3}
+        patch = {e.args[0].text: e for e in p.events if e.kind == 'call' and e.attr == '_patch_access_to_globals' and e.args}
+        ex = [e for e in p.events if e.kind == 'call' and e.callee == 'exec']
+        evl = [e for e in p.events if e.kind == 'call' and e.callee == 'eval']
+        if 'exec' not in comp or 'eval' not in comp:
+            probs.add('the code is not compiled in both modes (exec for the leading lines, eval for the last one)')
+            continue
+        if len(ex) != 1 or len(evl) != 1:
+            probs.add('exec(...) runs %d times and eval(...) %d times on a completing path (expected once each)' % (len(ex), len(evl)))
+            continue
+
+        def patched_of(call, mode):
+            src = comp[mode].result.text
+            a = call.args[0].text if call.args else ''
+            return src in patch and a.startswith(patch[src].result.text)
+        if not patched_of(ex[0], 'exec') or not patched_of(evl[0], 'eval'):
+            probs.add('exec / eval do not run the patched code objects of their own compile() (exec: %s; eval: %s)' % (ex[0].args[0].text[:40] if ex[0].args else None, evl[0].args[0].text[:40] if evl[0].args else None))
+        if len(ex[0].args) < 2 or len(evl[0].args) < 2 or ex[0].args[1].text != evl[0].args[1].text:
+            probs.add('exec and eval do not share one namespace')
+        if tr.index_of(p, ex[0]) > tr.index_of(p, evl[0]):
+            probs.add('the last line is evaluated before the leading lines were executed')
+        rt = p.ret.text if p.ret is not None else ''
+        if evl[0].result.text not in rt:
+            probs.add('the value returned (%s) is not what eval returned' % rt[:40])
+        for i, e in enumerate(p.events):
+            if e.kind == 'store' and e.target.startswith('sys.modules[') and '.__dict__' not in e.target and not e.target.startswith('del '):
+                mod = e.value.text if e.value is not None else ''
+                ns = evl[0].args[1].text
+                filled = any(x.kind == 'call' and x.attr == 'update' and x.recv is not None and x.recv.text.startswith(mod) and x.args and x.args[0].text == ns for x in p.events[:i]) or ns in mod
+                if not filled:
+                    probs.add('a module is published in sys.modules without the namespace the code ran in (definitions made by the node are lost for the next evaluation)')
+    if probs:
+        run.violation(rule, fi, 'compile / exec / eval pipeline', '; '.join(sorted(probs)[:3]))
+    else:
+        run.ok(rule, fi, 'compile(exec) + compile(eval) -> patched -> exec then eval in one namespace; eval\'s value returned (%d paths)' % len(paths))
